@@ -101,6 +101,13 @@ pub use transactions::{DatabaseStats, Durability, ReadTransaction, WriteTransact
 pub use tree_store::{AccessGuard, AccessGuardMut, AccessGuardMutInPlace, Savepoint};
 pub use types::{Key, MutInPlaceValue, TypeName, Value};
 
+// Entry points for the external verification harness; compiled only with --cfg redb_verif
+#[cfg(redb_verif)]
+pub mod verif {
+    pub use crate::db::{VerifAccounting, VerifRegionAccounting};
+    pub use crate::tree_store::{VerifBuddyAllocator, VerifRegionTracker};
+}
+
 pub type Result<T = (), E = StorageError> = core::result::Result<T, E>;
 
 pub mod backends;
